@@ -3,24 +3,32 @@ import os
 import vf, _replay as R
 
 MODULE = "SleepFSM"
-INVS = "TypeOK NoStalePollActivity PersistMatches"
+INVS = "TypeOK NoStalePollActivity WakeNotUndone PersistMatches"
 PROPS = "DocumentedEdges RedundantRefused"
-DEVS = ["DevPollCallbackAfterWake", "DevStalePollEnd", "DevWakeNoPersist", "DevSleepWhilePolling", "DevPollFromAwake"]
+DEVS = ["DevPollCallbackAfterWake", "DevStalePollEnd", "DevWakeNoPersist", "DevSleepWhilePolling", "DevPollFromAwake",
+        "DevPollFastPath", "DevAgentPollEndIgnoresWake"]
 # the part of the statement each deviation breaks, and the (invariants, properties) TLC is run with to show it
 DEV_CAUGHT_BY = {"DevPollCallbackAfterWake": ("NoStalePollActivity", "TypeOK NoStalePollActivity", ""),
                  "DevStalePollEnd": ("NoStalePollActivity", "TypeOK NoStalePollActivity", ""),
                  "DevWakeNoPersist": ("PersistMatches", "TypeOK PersistMatches", ""),
                  "DevSleepWhilePolling": ("RedundantRefused", "TypeOK", "RedundantRefused"),
-                 "DevPollFromAwake": ("DocumentedEdges", "TypeOK", "DocumentedEdges")}
+                 "DevPollFromAwake": ("DocumentedEdges", "TypeOK", "DocumentedEdges"),
+                 "DevPollFastPath": ("DocumentedEdges", "TypeOK", "DocumentedEdges"),
+                 "DevAgentPollEndIgnoresWake": ("WakeNotUndone", "TypeOK WakeNotUndone", "")}
 # site of each deviation in the code (third component of a finding key)
 SITE = {"DevPollCallbackAfterWake": "sleep.Manager.Poll", "DevStalePollEnd": "sleep.Manager.Poll",
         "DevWakeNoPersist": "sleep.Manager.Wake", "DevSleepWhilePolling": "sleep.Manager.Sleep",
-        "DevPollFromAwake": "sleep.Manager.Poll"}
+        "DevPollFromAwake": "sleep.Manager.Poll", "DevPollFastPath": "sleep.Manager.Poll",
+        "DevAgentPollEndIgnoresWake": "agent.Agent.doPoll"}
+# deviations of the manager (the agent-level one is not observable on a bare sleep.Manager)
+MGR_DEVS = [d for d in DEVS if d != "DevAgentPollEndIgnoresWake"]
 HFILES = ["common/common_test.go.tmpl", "sleep/sleepfsm_test.go"]
+AGENT_HFILES = ["common/common_test.go.tmpl", "agent/cmesh_test.go", "agent/sleeppoll_test.go"]
 
 
 def consts(ctx):
-    return {"MaxCalls": 4, "MaxPolls": 3} if ctx.quick() else {"MaxCalls": 6, "MaxPolls": 4}
+    return ({"MaxCalls": 4, "MaxPolls": 3, "MaxRestarts": 1} if ctx.quick()
+            else {"MaxCalls": 6, "MaxPolls": 4, "MaxRestarts": 1})
 
 
 def base_act(a):
@@ -29,16 +37,20 @@ def base_act(a):
 
 def proj(t):
     return {"st": t["st"], "status": t["st"], "sleeping": t["st"] != "AWAKE", "file": t["file"], "tset": t["tset"],
-            "nextSet": t["nextSet"], "lp": t["lp"], "poll": [p["pc"] for p in t["poll"]]}
+            "nextSet": t["nextSet"], "lp": t["lp"], "poll": [p["pc"] for p in t["poll"]], "lock": t["lock"],
+            "waiter": t["waiter"]}
 
 
 def same_result(a, mm):
-    return a.get("res") == mm.get("real_res") and vf.canon(a.get("cbs", [])) == vf.canon(mm.get("real_cbs", []))
+    # the result of PollWait (woken / asleep) is the agent's decision; a bare manager does not make it
+    return ((a.get("res") == mm.get("real_res") or a.get("act") == "PollWait")
+            and a.get("handoff", "none") == mm.get("real_handoff", "none")
+            and vf.canon(a.get("cbs", [])) == vf.canon(mm.get("real_cbs", [])))
 
 
 def is_init(t):
-    return (t["ncalls"] == 0 and t["npolls"] == 0 and t["pending"] == 0 and t["st"] == "AWAKE" and t["file"] == "none"
-            and not t["armed"])
+    return (t["ncalls"] == 0 and t["npolls"] == 0 and t["pending"] == 0 and t["nrestarts"] == 0 and t["st"] == "AWAKE"
+            and t["file"] == "none" and not t["armed"] and t["lock"] == "free")
 
 
 def key_of(dev):
@@ -49,15 +61,23 @@ def model(ctx):
     """TLC: ideal spec (edges emitted) + one small run per deviation (must be caught by the part of the statement it
     breaks) + the transition relation of every single-deviation variant of the same bounded model (classification)"""
     c = consts(ctx)
-    small = {"MaxCalls": 3, "MaxPolls": 2}
+    small = {"MaxCalls": 3, "MaxPolls": 2, "MaxRestarts": 1}
     jobs = [dict(module=MODULE, name="ideal", workers=2, cfg=R.cfg_text(c, emit=True, invs=INVS, props=PROPS))]
     for d in DEVS:
         _, invs, props = DEV_CAUGHT_BY[d]
         jobs.append(dict(module=MODULE, name="dev" + d, workers=1, expect_violation=True,
                          cfg=R.cfg_text(small, dev=[d], emit=False, invs=invs, props=props)))
-    for d in DEVS:
+    for d in MGR_DEVS:
         jobs.append(dict(module=MODULE, name="rel" + d, workers=1, cfg=R.cfg_text(c, dev=[d], emit=True)))
+    # small instance for the agent-level replay: ideal, with the known manager deviation, and with the agent deviation
+    ac = agent_consts(ctx)
+    K = "DevPollCallbackAfterWake"
+    for nm, dv in (("agentIdeal", []), ("agentKnown", [K]), ("agentDevIdeal", ["DevAgentPollEndIgnoresWake"]),
+                   ("agentDevKnown", [K, "DevAgentPollEndIgnoresWake"])):
+        jobs.append(dict(module=MODULE, name=nm, workers=1, cfg=R.cfg_text(ac, dev=dv, emit=True)))
     res = R.tlc_many(ctx, jobs)
+    agent = {nm: r for nm, r in zip(("agentIdeal", "agentKnown", "agentDevIdeal", "agentDevKnown"), res[-4:])}
+    res = res[:-4]
     ideal = res[0]
     if ideal.violated:
         raise vf.Infra("ideal SleepFSM spec violates %s (specification error)" % ideal.violated)
@@ -67,8 +87,8 @@ def model(ctx):
         if r.violated != DEV_CAUGHT_BY[d][0]:
             raise vf.Infra("deviation %s: TLC reported %s, expected a violation of %s (vacuous model?)" % (
                 d, r.violated, DEV_CAUGHT_BY[d][0]))
-    rels = {d: r for d, r in zip(DEVS, res[1 + len(DEVS):])}
-    return c, ideal, caught, rels
+    rels = {d: r for d, r in zip(MGR_DEVS, res[1 + len(DEVS):])}
+    return c, ideal, caught, rels, agent
 
 
 def build(ctx):
@@ -85,6 +105,76 @@ def describe(mm):
     a = mm.get("a", {})
     sched = " ".join("%s%s" % (x.get("act"), ("(%d)" % x["p"]) if x.get("p") else "") for x in mm.get("prefix", []))
     cb = lambda l: " ".join("%s@%s" % (c.get("cb"), c.get("at")) for c in (l or [])) or "-"
-    return ("sleep.Manager schedule [%s]: last step per specification -> %s, callbacks %s, state %s ; real code -> %s, "
-            "callbacks %s, state %s" % (sched, mm.get("spec_res"), cb(mm.get("spec_cbs")), vf.canon(mm.get("spec_proj")),
-                                        mm.get("real_res"), cb(mm.get("real_cbs")), vf.canon(mm.get("real_t"))))
+    ho = lambda h: "" if h in (None, "none") else " (poll waiting for the lock: %s)" % h
+    return ("sleep.Manager schedule [%s]: last step per specification -> %s%s, callbacks %s, state %s ; real code -> %s%s, "
+            "callbacks %s, state %s" % (sched, mm.get("spec_res"), ho(mm.get("spec_handoff")), cb(mm.get("spec_cbs")),
+                                        vf.canon(mm.get("spec_proj")), mm.get("real_res"), ho(mm.get("real_handoff")),
+                                        cb(mm.get("real_cbs")), vf.canon(mm.get("real_t"))))
+
+
+# ---------------------------------------------------------------------------------------------- agent level (doPoll)
+def agent_consts(ctx):
+    return {"MaxCalls": 2 if ctx.quick() else 3, "MaxPolls": 1, "MaxRestarts": 0}
+
+
+def agent_edges(edges):
+    """Contract the transition relation to what can be scheduled on a whole agent: Sleep / Wake are complete calls
+    (SleepBegin+SleepEnd, WakeBegin+WakeEnd with nobody arriving in between), states with the lock held disappear."""
+    by_s = {}
+    for e in edges:
+        by_s.setdefault(vf.canon(e["s"]), []).append(e)
+    out = []
+    for e in edges:
+        a = e["a"]
+        if e["s"]["lock"] != "free" or a["act"] in ("PollEnter", "Restart"):
+            continue
+        if a["act"] in ("SleepBegin", "WakeBegin"):
+            name = "Sleep" if a["act"] == "SleepBegin" else "Wake"
+            if a["res"] == "refused":
+                out.append({"s": e["s"], "a": {"act": name, "p": 0, "res": "refused"}, "t": e["t"]})
+                continue
+            ends = [x for x in by_s.get(vf.canon(e["t"]), []) if x["a"]["act"] == name + "End"]
+            if len(ends) != 1:
+                raise vf.Infra("agent_edges: %d %sEnd transitions after %s" % (len(ends), name, a["act"]))
+            out.append({"s": e["s"], "a": {"act": name, "p": 0, "res": "ok"}, "t": ends[0]["t"]})
+            continue
+        if a["act"] in ("SleepEnd", "WakeEnd"):
+            continue
+        out.append({"s": e["s"], "a": {"act": a["act"], "p": a.get("p", 0), "res": a["res"]}, "t": e["t"]})
+    # keep what is reachable without the dropped transitions
+    succ = {}
+    for e in out:
+        succ.setdefault(vf.canon(e["s"]), []).append(e)
+    seen = set(vf.canon(e["s"]) for e in out if is_init(e["s"]))
+    todo = list(seen)
+    while todo:
+        for e in succ.get(todo.pop(), []):
+            k = vf.canon(e["t"])
+            if k not in seen:
+                seen.add(k)
+                todo.append(k)
+    return [e for e in out if vf.canon(e["s"]) in seen]
+
+
+def agent_proj(t):
+    return {"st": t["st"], "file": t["file"], "conn": t["conn"], "poll": [p["pc"] for p in t["poll"]]}
+
+
+def agent_same_result(a, mm):
+    return a.get("res") == mm.get("real_res")
+
+
+def agent_replay(ctx, doc, tag, window_ms):
+    import os
+    inp = os.path.join(ctx.work, "sleep_agent_%s.json" % tag)
+    vf.write_json(inp, doc)
+    r = ctx.gotest("agent", AGENT_HFILES, "^TestZZVSleepPollAgent$", env={"ZZV_IN": inp, "ZZV_WINDOW_MS": window_ms},
+                   timeout=1500)
+    return R.collect(r, "agent poll replay")
+
+
+def agent_describe(mm):
+    sched = " ".join("%s%s" % (x.get("act"), ("(%d)" % x["p"]) if x.get("p") else "") for x in mm.get("prefix", []))
+    return ("agent.Agent (sleep enabled, peer Y) schedule [%s]: last step per specification -> %s, state %s ; real agent "
+            "-> %s, state %s  (conn = listeners registered and peer link up)" % (
+                sched, mm.get("spec_res"), vf.canon(mm.get("spec_proj")), mm.get("real_res"), vf.canon(mm.get("real_t"))))
